@@ -38,6 +38,17 @@ CLAIMED = {
             "trusted: functools.lru_cache semantics, value-purity of whitelisted numpy/itertools calls, NamedTuple eq/hash; "
             "unknown external calls inside memoised bodies are listed, not alarmed",
             "DESIGN.md §4 C16"),
+    "C17": ("serial",
+            "extraction and comparison of writer/reader key tables, constructor signatures and registries from the AST",
+            "Partial (every table-level clause): decides, for every serialisable class and all objects at once, that each state "
+            "field is written (or neutralised/named volatile), every key a reader needs is written and every written key is "
+            "consumed, geometry constructors get all their parameters back, level>=1 conversions pair with their inverses, "
+            "the type/symmetry/backend registries are total, mismatch and meta-conformance guards cover all state fields, and "
+            "normalised copies are the ones serialised. These are necessary conditions of the round trip; that values survive "
+            "numpy/HDF5 I/O bit-for-bit is NOT decided.",
+            "trusted: python ast; numpy/h5py store values faithfully; legacy (deprecated) formats checked for key agreement "
+            "only; one known finding (MpoPBC.tol) listed in known_findings.json",
+            "DESIGN.md §4 C17"),
 }
 
 NOT_APPLICABLE = {
